@@ -33,7 +33,8 @@ RULE = ("case = one history executed in one new process: fresh (job twice), seq 
         "(forwards of 2-4 differentiable jobs, then joint/fifo/lifo backward), dictreuse (one settings dict, two "
         "molecules), enginereuse (one MD engine / optimiser object, consecutive runs on fresh Molecule objects, also with "
         "control_energy_shift / scale_vel), options (ordered pairs of jobs with dispersion / cutoff / alternative "
-        "parameter files / learned lists), threads (torch.set_num_threads 2,4,8,16,1 before the job); non-trivial when at least one step "
+        "parameter files / learned lists), stochastic (seeded Langevin / damped XL-BOMD from preset velocities: A, other RNG "
+        "use, A), threads (torch.set_num_threads 2,4,8,16,1 before the job); non-trivial when at least one step "
         "was compared with a fresh-process reference; distinct by SHA-1 of the case")
 ASSUMPTIONS = ["float64 CPU", "the fresh-process reference of a job is computed once per check run and shared between "
                "cases through a scratch cache (it is deterministic: verified by the 'fresh' cases, which run it twice)",
@@ -44,7 +45,8 @@ ASSUMPTIONS = ["float64 CPU", "the fresh-process reference of a job is computed 
 REQUIRED_MONITORS = ["fresh_processes", "immediate_repeats_compared", "steps_judged_after_history",
                      "dict_reuse_steps_judged", "driver_reuse_steps_judged", "interleave_jobs_judged",
                      "thread_steps_judged", "raising_steps_judged", "engine_reuse_steps_judged",
-                     "engine_reuse_with_run_options_judged", "option_job_steps_judged"]
+                     "engine_reuse_with_run_options_judged", "option_job_steps_judged",
+                     "seeded_stochastic_preset_velocity_steps_judged"]
 CASE_TIMEOUT = 1200.0
 BUDGET_S = {"quick": float(os.environ.get("VERIF_C15_BUDGET", 230)), "thorough": float(os.environ.get("VERIF_C15_BUDGET", 1700))}
 MIN_NONTRIVIAL = 6
@@ -113,6 +115,8 @@ def gen_cases(tier, seed):
                 for mode in ("dict", "driver"):
                     if (a, b, mode) not in dr and J.JOBS[b].get("expect") != "raises":
                         dr.append((a, b, mode))
+    # first use vs second use of ONE dictionary by the same job (the package tightens scf_eps inside the caller's dict)
+    dr += [("am1_ch2o_cis_loose", "am1_ch2o_cis_loose", "dict"), ("am1_ch2o_cis", "am1_ch2o_cis_loose", "driver")]
     for a, b, mode in dr:
         cases.append({"kind": "dictreuse", "steps": [{"job": a, "reuse": mode}, {"job": b, "reuse": mode},
                                                       {"job": b, "reuse": mode}]})
@@ -138,6 +142,13 @@ def gen_cases(tier, seed):
     for a, b in op:
         cases.append({"kind": "options", "steps": [{"job": a, "reuse": "none"}, {"job": b, "reuse": "none"},
                                                     {"job": a, "reuse": "none"}]})
+    # --- seeded stochastic engines from preset velocities: A, (other RNG use), A
+    sp_ = [("md_lang_preset", {"consume_rng": 17}), ("md_xldamp_preset", {"job": "md_lang_nh3", "reuse": "none"})]
+    if tier == "thorough":
+        sp_ += [("md_lang_preset", {"job": "md_bomd_h2o", "reuse": "none"}), ("md_xldamp_preset", {"consume_rng": 3}),
+                ("md_lang_preset", {"job": "md_xldamp_preset", "reuse": "none"})]
+    for a, mid in sp_:
+        cases.append({"kind": "stochastic", "steps": [{"job": a, "reuse": "none"}, mid, {"job": a, "reuse": "none"}]})
     # --- thread counts
     tj = ["am1_c6h6", "am1_batch", "pm3_ch3oh_sp2", "g_am1_h2o_tight", "md_bomd_h2o"]
     for i in range(nthr):
@@ -247,18 +258,26 @@ def _compare(job, ref, got):
             continue
         if a.size == 0:
             continue
-        if not (np.isfinite(a).all() and np.isfinite(b).all()):
-            same = np.array_equal(np.isnan(a), np.isnan(b))
+        fa, fb = np.isfinite(a), np.isfinite(b)
+        if not (fa.all() and fb.all()):
+            # a non-finite entry on one side only (or a different kind: nan vs inf) can never count as agreement
+            same = np.array_equal(fa, fb) and np.array_equal(np.isnan(a), np.isnan(b)) and \
+                np.array_equal(a[~fa & ~np.isnan(a)], b[~fb & ~np.isnan(b)])
             if not same:
                 bad.append((k, "non-finite", None, 1e30))
-            continue
+                continue
+            if not fa.any():
+                continue
+            a, b = a[fa], b[fb]
         d = float(np.abs(a - b).max())
         t = _tol(k, job)
         ratio = d / t if t > 0 else (0.0 if d == 0 else 1e30)
+        if not np.isfinite(ratio):
+            ratio = 1e30
         cls = "E" if k in E_KEYS else "F" if (k == "force" or k.startswith("grad_")) else "MO" if k in MO_KEYS else \
             "Q" if k in Q_KEYS else "MD" if k.startswith("md_") else "other"
         worst[cls] = max(worst.get(cls, 0.0), ratio)
-        if ratio > 1.0:
+        if not (ratio <= 1.0):
             bad.append((k, d, t, ratio))
     return bad, worst, bitwise
 
@@ -397,6 +416,8 @@ def run_case(case):
                     inc("engine_reuse_with_run_options_judged")
                 if job in J.OPTION_JOBS:
                     inc("option_job_steps_judged")
+                if job in J.STOCHASTIC_PRESET_JOBS:
+                    inc("seeded_stochastic_preset_velocity_steps_judged")
                 if rr.get("engine_reused"):
                     inc("engine_reuse_steps_judged")
                 elif rr.get("driver_reused"):
